@@ -76,7 +76,7 @@ Definition qrun_op (k : fkb) (qk : list qobj) (roots : list nat) (w : qworld_sta
       let w' := (set_tab (fst w) i (t_reset (ftab (fst w) i)), snd w) in
       Some (w', L [eqworld qk nb w'])
   | L (A t :: _) =>
-      if (Z.eqb t 1 || Z.eqb t 2 || Z.eqb t 8 || Z.eqb t 12)%bool then
+      if (Z.eqb t 1 || Z.eqb t 2 || Z.eqb t 8 || Z.eqb t 12 || Z.eqb t 16)%bool then
         let r := frun_op k roots (fst w) op in
         let w' := (fst r, snd w) in
         Some (w', match snd r with
